@@ -10,9 +10,13 @@ import (
 	"encoding/hex"
 	"fmt"
 	"math/rand/v2"
+	"runtime"
 	"runtime/debug"
 	"sort"
 	"strings"
+	"time"
+
+	"connectrpc.com/vanguard/internal/verifsim/verifsync"
 )
 
 // ---------------------------------------------------------------------------------------
@@ -141,6 +145,8 @@ type World struct {
 	logOn      bool
 	Deadlock   bool
 	DeadlockAt []string
+	LockWaits  int    // lock acquisitions that had to park (the lock was held by a task parked at a seam)
+	LockStall  string // non-empty: a task blocked on a real lock held by a parked task; the world was abandoned
 	HitStepCap bool
 	schedHash  hashWriter
 	adjPairs   map[string]struct{}
@@ -360,7 +366,27 @@ func (w *World) pick(rs []*Task) *Task {
 }
 
 // Run drives the world until all tasks are done, deadlock, or the step cap.
+// activeWorld is the world whose tasks are running (one at a time per process); the lock seams park their callers in it.
+var activeWorld *World
+
+func init() {
+	verifsync.Block = func(site string, cond func() bool) bool {
+		w := activeWorld
+		if w == nil || w.cur == nil {
+			return false
+		}
+		if cond == nil || cond() {
+			return true // free: taking a lock is not a scheduling point of its own
+		}
+		w.LockWaits++
+		w.Block(site, cond)
+		return true
+	}
+}
+
 func (w *World) Run() {
+	activeWorld = w
+	defer func() { activeWorld = nil }()
 	for {
 		alldone := true
 		for _, t := range w.tasks {
@@ -438,8 +464,81 @@ func (w *World) Run() {
 		w.cur = t
 		t.state = stRunnable
 		t.wake <- struct{}{}
-		<-w.yieldCh
+		if !w.awaitYield(t) {
+			return
+		}
 	}
+}
+
+// lockStallTimeout is how long (wall clock) the scheduler waits for the running task to reach its next seam before it
+// looks for the one thing that can keep a task from getting there: a real lock held by a task that is parked at a seam.
+// The locks of the package under test are seams themselves (verifsync), so this is a safety net for locks elsewhere; it
+// ends the run as a harness fault (no verdict) instead of letting the process die of "all goroutines are asleep".
+const lockStallTimeout = 4 * time.Second
+
+var reportedStuck = map[string]bool{}
+
+// awaitYield waits for the running task to hand the baton back. It returns false if the task is blocked on a real lock
+// (a deadlock of the code under test that no simulated step can resolve): the world is then abandoned as it stands.
+func (w *World) awaitYield(t *Task) bool {
+	for {
+		timer := time.NewTimer(lockStallTimeout)
+		select {
+		case <-w.yieldCh:
+			timer.Stop()
+			return true
+		case <-timer.C:
+			site := lockedGoroutineSite()
+			if site == "" {
+				continue // slow, not stuck
+			}
+			w.cur = nil
+			w.LockStall = t.name + " blocked in " + site
+			if !w.Deadlock {
+				w.Deadlock = true
+				w.DeadlockAt = append(w.DeadlockAt, t.name+"@lock:"+site)
+				for _, o := range w.tasks {
+					if o != t && o.state != stDone {
+						w.DeadlockAt = append(w.DeadlockAt, o.name+"@"+o.site)
+					}
+				}
+				w.Logf("deadlock", "%s", strings.Join(w.DeadlockAt, ","))
+			}
+			w.aborting = true
+			return false
+		}
+	}
+}
+
+// lockedGoroutineSite finds a task goroutine parked inside sync.Mutex/RWMutex.Lock and names the locking call site.
+func lockedGoroutineSite() string {
+	buf := make([]byte, 1<<20)
+	buf = buf[:runtime.Stack(buf, true)]
+	for _, g := range strings.Split(string(buf), "\n\n") {
+		head, _, _ := strings.Cut(g, "\n")
+		if !strings.Contains(head, "[sync.Mutex.Lock") && !strings.Contains(head, "[sync.RWMutex") {
+			continue
+		}
+		if !strings.Contains(g, "verifsim.(*World).Spawn") {
+			continue
+		}
+		id, _, _ := strings.Cut(strings.TrimPrefix(head, "goroutine "), " ")
+		if reportedStuck[id] {
+			continue // left over from an earlier abandoned world
+		}
+		reportedStuck[id] = true
+		for _, line := range strings.Split(g, "\n") {
+			if strings.HasPrefix(line, "connectrpc.com/vanguard.") {
+				fn, _, _ := strings.Cut(line, "(0x")
+				if i := strings.LastIndex(fn, "({"); i > 0 {
+					fn = fn[:i]
+				}
+				return strings.TrimPrefix(fn, "connectrpc.com/vanguard.")
+			}
+		}
+		return "unknown site"
+	}
+	return ""
 }
 
 // TaskFailures returns panics that escaped task bodies (harness bugs or unrecovered SUT panics).
